@@ -48,6 +48,30 @@ def attribute_walk(code):
     return out, where, slot
 
 
+def held_wikicodes(code):
+    """every Wikicode a node of the tree holds in an attribute (found through vars(), not through __children__), with
+    whether its parent renders it: (parent node, attribute name, Wikicode, rendered?)"""
+    from mwparserfromhell.wikicode import Wikicode
+    from mwparserfromhell.nodes import Tag
+    from mwparserfromhell.nodes.extras import Attribute, Parameter
+    out = []
+    for n, _anc in attribute_walk(code)[0]:
+        for k, v in vars(n).items():
+            items = [(k, v, None)] if isinstance(v, Wikicode) else []
+            if isinstance(v, list):
+                for it in v:
+                    if isinstance(it, (Attribute, Parameter)):
+                        items += [(kk, vv, it) for kk, vv in vars(it).items() if isinstance(vv, Wikicode)]
+            for attr, w, holder in items:
+                unrendered = (isinstance(holder, Parameter) and attr == "_name" and not holder.showkey) or (
+                    isinstance(n, Tag) and holder is None and ((attr == "_contents" and n.self_closing) or (attr == "_tag" and n.wiki_markup) or
+                                                               (attr == "_closing_tag" and (n.self_closing or n.wiki_markup or n.implicit))))
+                if type(n).__name__ == "ExternalLink" and attr == "_title" and not n.brackets:
+                    unrendered = True
+                out.append((n, attr, w, not unrendered))
+    return out
+
+
 def check_tree(code):
     from mwparserfromhell.nodes import Tag
     from mwparserfromhell.nodes.extras import Parameter
